@@ -67,10 +67,11 @@ theorem detect_sound_partial_savefree (zip : Bool) (d : Disk) (empty : Blob) (hn
     report (run (openFont zip d empty) ops) = quietReport (run (openFont zip d empty) ops) :=
   report_quiet (synced_run_nosave (synced_openFont zip d empty hn hi hd) ops hq hs)
 
-/-- operations that change no byte on disk: the quiet ones and the structural in-memory edits
-(creating a glyph or a layer, deleting or reordering layers, changing the default layer) -/
+/-- operations that change no byte on disk that the font has not written itself: the quiet ones and
+the structural in-memory edits (creating or renaming a glyph, creating a layer, deleting or
+reordering layers, changing the default layer) -/
 def ByteQuiet : Op → Prop
-  | .gnew _ _ | .lnew _ | .ldel _ | .lorder _ | .ldefault _ => True
+  | .gnew _ _ | .grename _ _ _ | .lnew _ | .ldel _ | .lorder _ | .ldefault _ => True
   | op => Quiet op
 
 /-- The full soundness statement of the property: nothing is reported as long as no byte changes
@@ -391,6 +392,13 @@ more — no glyph in any layer of the layer order, no image, no data file: the f
 theorem save_drops_schedules (s s' : State) (h : SyncedM s) (ht : Tidy s) (tD tS : Time) (hr : save s tD tS = .ok s') :
     (∀ ln l, ln ∈ s'.font.order → getLayer s' ln = some l → l.sched = []) ∧
       s'.font.images.sched = [] ∧ s'.font.data.sched = [] := save_sched h ht hr
+
+example : (run (openFont false demoDisk 9) [.gget "fore" "A", .gdel "fore" "A", .fget true "i.png", .fset true "i.png" none,
+      .save 100 101]).font.images.sched = [] ∧
+    (getLayer (run (openFont false demoDisk 9) [.gget "fore" "A", .gdel "fore" "A", .fget true "i.png", .fset true "i.png" none,
+      .save 100 101]) "fore").map (·.sched) = some [] ∧
+    (run (openFont false demoDisk 9) [.gget "fore" "A", .gdel "fore" "A", .fget true "i.png", .fset true "i.png" none,
+      .save 100 101]).disk.images = [] := by decide
 
 /-! ## 4d. Creating and renaming glyphs in memory -/
 
